@@ -220,9 +220,11 @@ func (c *CBChain) Deliver(sender ibctesting.SenderAccount, gas uint64, msgs ...s
 	return o
 }
 
-func (c *CBChain) Acct(i int) ibctesting.SenderAccount { return c.SenderAccounts[i%len(c.SenderAccounts)] }
-func (c *CBChain) Addr(i int) sdk.AccAddress           { return c.Acct(i).SenderAccount.GetAddress() }
-func (c *CBChain) Commit()                             { c.W.Coord.CommitBlock(c.TestChain) }
+func (c *CBChain) Acct(i int) ibctesting.SenderAccount {
+	return c.SenderAccounts[i%len(c.SenderAccounts)]
+}
+func (c *CBChain) Addr(i int) sdk.AccAddress { return c.Acct(i).SenderAccount.GetAddress() }
+func (c *CBChain) Commit()                   { c.W.Coord.CommitBlock(c.TestChain) }
 func (c *CBChain) Bal(addr sdk.AccAddress, denom string) sdkmath.Int {
 	return c.App.BankKeeper.GetBalance(c.GetContext(), addr, denom).Amount
 }
@@ -502,17 +504,17 @@ func (w *v2tap) UnmarshalPacketData(payload channeltypesv2.Payload) (any, error)
 
 // Behaviours of the scripted contract.
 const (
-	BehOK         = "ok"          // write state, return nil
-	BehExact      = "exact"       // write state, consume exactly the rest of the gas limit, return nil
-	BehError      = "error"       // write state, return an error
-	BehPanic      = "panic"       // write state, panic
-	BehBurnAll    = "burnall"     // write state, consume far more than the limit (out-of-gas panic)
-	BehOverByOne  = "over1"       // write state, consume the rest of the limit and one more unit (out-of-gas panic)
-	BehOogAsError = "oogerror"    // write state, run out of gas, recover inside the contract keeper and return an error
-	BehOogAsOK    = "oogok"       // write state, run out of gas, recover inside the contract keeper and report success
-	contractFrom  = 6             // account the contract spends from
-	contractTo    = 7             // account the contract pays
-	contractCoins = int64(3)      // amount of stake per call
+	BehOK         = "ok"       // write state, return nil
+	BehExact      = "exact"    // write state, consume exactly the rest of the gas limit, return nil
+	BehError      = "error"    // write state, return an error
+	BehPanic      = "panic"    // write state, panic
+	BehBurnAll    = "burnall"  // write state, consume far more than the limit (out-of-gas panic)
+	BehOverByOne  = "over1"    // write state, consume the rest of the limit and one more unit (out-of-gas panic)
+	BehOogAsError = "oogerror" // write state, run out of gas, recover inside the contract keeper and return an error
+	BehOogAsOK    = "oogok"    // write state, run out of gas, recover inside the contract keeper and report success
+	contractFrom  = 6          // account the contract spends from
+	contractTo    = 7          // account the contract pays
+	contractCoins = int64(3)   // amount of stake per call
 )
 
 var errContract = errors.New("scripted contract error")
